@@ -770,7 +770,8 @@ def _main(tier_, master, cfg, docs, A, cwd, t0):
                 'the 20-entry caches: random, fill-then-probe, thrash) executed in a child forked from a pristine importer; '
                 'every outcome compared with the outcome of the same call made first in such a child; distinct = distinct call '
                 'sequences; non-trivial = repeats a cache key with another expectation, uses one schema with several '
-                'validators, or exceeds 20 distinct keys of one cache',
+                'validators, or exceeds 20 distinct keys of one cache; after the seeded histories EVERY sequence of two and of three '
+                'calls with one cache key (expect_failure False/True at each position) is executed for every key in the repository-relative spelling',
         'samples': samples[:4],
         'distinct_histories': len(hs),
         'logical_steps': st.get('calls', 0),
